@@ -163,7 +163,7 @@ func RandTS(r *lib.Rng, kinds string, nsamp int, rate int64, base int, signed bo
 	}
 	t.DelayNs = delayNs(k, rate)
 	if r.Chance(1, 4) {
-		t.Veto = r.Pick([]int{1, 5, 50, 300, 65535})
+		t.Veto = r.Pick([]int{1, 5, 50, 75, 200, 600, 1500, 65535})
 	}
 	return t
 }
@@ -266,6 +266,7 @@ func GenRandom(r *lib.Rng, id int64, tier string) Case {
 		}
 		c.Chans = append(c.Chans, cc)
 	}
+	c.Stray = r.Chance(1, 5)
 	assemble(&c, raws, blocks, controlOps(r, &c, bases, len(blocks), false), r)
 	return c
 }
